@@ -535,8 +535,15 @@ class PyStmtSpec(PySpec):
         item = items[0]
         mgr = self.ev(item.context_expr)
         tp = z3.Function("type_of", ObjS, ObjS)(it.obj(mgr))
-        enter = it.prim("getattr.__enter__", [tp])
-        exit_ = it.prim("getattr.__exit__", [tp])
+        try:
+            enter = it.prim("getattr.__enter__", [tp])
+            exit_ = it.prim("getattr.__exit__", [tp])
+        except Raised as r:
+            # 8.5 (3.11+): an object without __enter__ / __exit__ "does not support the context manager protocol": TypeError
+            from pyvc.interp import EXC
+            if it.exc_matches(r.exc, EXC["AttributeError"]):
+                raise exc("TypeError", "object does not support the context manager protocol")
+            raise
         value = it.prim("call[.|]", [it.obj(enter), it.obj(mgr)])
         try:
             if item.optional_vars is not None:
